@@ -145,7 +145,7 @@ Proof.
   unfold cem_contribs. cbv zeta. rewrite map_flat_map, qsum_flat_map.
   replace (cnt 1 (fst pp) + 1)%nat with (S (cnt 1 (fst pp))) by lia. rewrite seq0_S. cbn [map]. rewrite qsum_cons.
   rewrite (qsum_zero _ (map S (seq 0 (cnt 1 (fst pp))))).
-  - cbn [seq map Nat.add fst snd Nat.sub]. rewrite qsum_cons, qsum_nil. rewrite Nat.add_0_r.
+  - cbn [seq map Nat.add fst snd Nat.sub]. rewrite qsum_cons, qsum_nil. rewrite Nat.add_0_r, Nat.sub_0_r.
     destruct (af =? j)%nat; [|ring]. rewrite binpmf_zero, binpmf_00. cbn [Nat.eqb]. ring.
   - intros e He. apply in_map_iff in He. destruct He as (e' & <- & _). rewrite map_map. cbn [fst snd].
     apply qsum_zero. intros r _. destruct (_ =? j)%nat; [|reflexivity]. rewrite binpmf_zero. cbn [Nat.eqb]. ring.
@@ -210,7 +210,7 @@ Proof.
   destruct (heterr_mat_rows p Hok) as [LH _]. destruct (proj_mat_scaled_rows pops p Hok) as [LP _].
   destruct Hok as (_ & E1 & E2 & Hs & HF).
   destruct (proj_matrix_rows _ _ _ Hs E1 HF) as [LP0 _].
-  rewrite !tget_tapply by assumption. rewrite LH, LP, LP0.
+  rewrite !tget_tapply by assumption. rewrite LH, LP0.
   set (j := nth ax idx 0%nat). destruct (Nat.ltb_spec j (p_nsub p + 1)) as [Hj|Hj]; [|reflexivity].
   rewrite (qsum_map_ext _ (fun a => (if (a =? j)%nat then 1 else 0) *
              qsum (map (fun b => nth a (nth b (proj_matrix (p_nseq p) (p_nsub p) (p_F p)) []) 0 * tget d y (upd ax b idx)) (seq 0 (p_nseq p + 1))))).
@@ -219,7 +219,7 @@ Proof.
     destruct (Nat.eqb_spec a j) as [->|Hne]; [|ring].
     rewrite tget_tapply by (auto; now rewrite upd_length). rewrite LP.
     rewrite upd_nth by lia. destruct (Nat.ltb_spec j (p_nsub p + 1)); [|lia].
-    rewrite Qmult_1_l. apply qsum_map_ext. intros b _. rewrite upd_upd, proj_mat_scaled_entry by exact He.
+    apply Qmult_comp; [reflexivity|]. apply qsum_map_ext. intros b _. rewrite upd_upd, proj_mat_scaled_entry by exact He.
     rewrite Hxy by (now rewrite upd_length). reflexivity.
 Qed.
 
@@ -239,6 +239,12 @@ Qed.
 Lemma is_origin_app a b : is_origin (a ++ b) = is_origin a && is_origin b.
 Proof. unfold is_origin. apply forallb_app. Qed.
 
+Lemma origin_repeat idx : is_origin idx = true -> idx = repeat 0%nat (length idx).
+Proof.
+  induction idx as [|i idx IH]; intros O; [reflexivity|]. cbn [is_origin forallb] in O. apply andb_true_iff in O. destruct O as [O1 O2].
+  apply Nat.eqb_eq in O1. subst i. cbn [length repeat]. f_equal. apply IH, O2.
+Qed.
+
 Theorem deep_coverage_plain_projection d pops thr (sim : list nat -> tens d) (model : tens d) :
   length pops = d -> Forall deep_pop pops -> 0 <= thr ->
   tget d model (repeat 0%nat d) == 0 ->
@@ -247,9 +253,7 @@ Theorem deep_coverage_plain_projection d pops thr (sim : list nat -> tens d) (mo
 Proof.
   intros Hd Hp Ht H0 idx Hl.
   assert (Horig : forall idx', length idx' = d -> is_origin idx' = true -> tget d model idx' == 0).
-  { intros idx' L O. replace idx' with (repeat 0%nat d); [exact H0|]. subst d. clear - O.
-    induction idx' as [|i idx' IH]; [reflexivity|]. cbn [is_origin forallb] in O. apply andb_true_iff in O. destruct O as [O1 O2].
-    apply Nat.eqb_eq in O1. subst i. cbn [length repeat]. f_equal. apply IH, O2. }
+  { intros idx' L O. rewrite (origin_repeat idx' O), L. exact H0. }
   unfold lowpass, add_sims.
   (* the simulated part adds nothing *)
   assert (S1 : forall start, tget d (tfoldi d (fun idx' m acc => if use_sim pops thr idx' then tadd d acc (tscale d m (sim idx')) else acc) [] model start) idx
@@ -262,10 +266,79 @@ Proof.
     - rewrite tget_tadd, tget_tscale, Ha, (Horig idx' L O). ring.
     - rewrite use_sim_deep in U by (auto; congruence). discriminate. }
   rewrite S1. unfold apply_all, plain_projection.
-  apply apply_all_deep; auto; [apply pe_tot_deep, Hp | lia |].
+  apply (apply_all_deep d pops (pe_tot_deep pops Hp) pops 0%nat); [cbn [Nat.add]; exact Hd | exact Hp | | exact Hl].
   (* the analytic part starts from the model itself *)
   intros idx' L. unfold analytic0. apply tmapi_fix_tget. apply talli_of_tget. intros i2 L2. cbn [app].
   destruct (is_origin i2) eqn:O.
-  - rewrite (Horig i2 L2 O). destruct (use_sim pops thr i2); ring.
+  - pose proof (Horig i2 L2 O) as Z. destruct (use_sim pops thr i2); rewrite Z; ring.
   - rewrite use_sim_deep by (auto; congruence). rewrite pnc_at_deep by (auto; congruence). rewrite O. ring.
+Qed.
+
+(** ** how far a deep coverage distribution is from the limit: every individual has depth >= D.
+    The statistics (hence, polynomially, the whole correction) are within O(D 2^-D) of [deep_stats]. *)
+Lemma wsum_le_supp (f g : nat -> Q) : forall cov d, (forall c, In c cov -> 0 <= c) ->
+  (forall k c, nth_error cov k = Some c -> c == 0 \/ f (d + k)%nat <= g (d + k)%nat) ->
+  wsum f d cov <= wsum g d cov.
+Proof.
+  induction cov as [|c cov IH]; intros d P H; cbn [wsum]; [lra|].
+  assert (0 <= c) by (apply P; now left).
+  assert (c * f d <= c * g d).
+  { destruct (H 0%nat c eq_refl) as [Z|L]; [rewrite Z; lra | rewrite Nat.add_0_r in L; nra]. }
+  assert (wsum f (S d) cov <= wsum g (S d) cov).
+  { apply IH; [intros; apply P; now right|]. intros k c' Hk. replace (S d + k)%nat with (d + S k)%nat by lia. apply H. exact Hk. }
+  lra.
+Qed.
+
+Lemma half_pow_mono : forall k D, (D <= k)%nat -> qpow half k <= qpow half D.
+Proof.
+  intros k D H. replace k with ((k - D) + D)%nat by lia. rewrite qpow_add.
+  pose proof (qpow_le1 half (k - D) half_unit). pose proof (half_pow_nonneg D). pose proof (half_pow_nonneg (k - D)). nra.
+Qed.
+
+Lemma d_half_pow_mono : forall k D, (1 <= D)%nat -> (D <= k)%nat -> qnat k * qpow half k <= qnat D * qpow half D.
+Proof.
+  intros k D H1 H. induction H as [|k H IH]; [lra|].
+  eapply Qle_trans; [|exact IH]. rewrite qpow_S, qnat_S.
+  pose proof (half_pow_nonneg k). assert (1 <= qnat k) by (change 1 with (qnat 1); unfold qnat; rewrite <- Zle_Qle; lia).
+  unfold half in *. set (u := qpow (1 # 2) k) in *. nra.
+Qed.
+
+Definition supported_from (D : nat) (cov : list Q) : Prop := forall k, (k < D)%nat -> nth k cov 0 == 0.
+
+Lemma supported_nth_error D cov k c : supported_from D cov -> nth_error cov k = Some c -> c == 0 \/ (D <= k)%nat.
+Proof.
+  intros S E. destruct (Nat.lt_ge_cases k D) as [L|G]; [left|now right].
+  specialize (S k L). rewrite (nth_error_nth _ _ _ E) in S. exact S.
+Qed.
+
+Theorem deep_coverage_stats_bound cov D : cov_ok cov -> supported_from D cov -> (2 <= D)%nat ->
+  let st := stats_of cov in
+  st_c0 st == 0 /\ st_c1 st == 0 /\ st_pos st == 1 /\
+  0 <= st_s st <= qpow half D /\ 0 <= st_t st <= qnat D * qpow half D /\ 0 <= st_h st <= 2 * qpow half D.
+Proof.
+  intros OK S HD. pose proof (stats_of_valid cov OK) as V. destruct OK as (P & T & Pos). cbv zeta.
+  assert (C0 : st_c0 (stats_of cov) == 0) by (cbn [stats_of st_c0]; apply S; lia).
+  assert (C1 : st_c1 (stats_of cov) == 0) by (cbn [stats_of st_c1]; apply S; lia).
+  pose proof (vs_tot _ V) as Tot. split; [exact C0|]. split; [exact C1|]. split; [lra|].
+  assert (Ppos : qsum (tl cov) == 1) by (cbn [stats_of st_pos st_c0] in Tot, C0; rewrite Qred_correct in Tot; lra).
+  split; [|split].
+  - split; [apply (vs_s _ V)|]. cbn [stats_of st_s]. rewrite Qred_correct.
+    rewrite <- (Qmult_1_r (qpow half D)), <- T, <- (wsum_const (qpow half D) cov 0).
+    apply wsum_le_supp; [exact P|]. intros k c E. destruct (supported_nth_error D cov k c S E); [now left|right]. apply half_pow_mono. lia.
+  - split; [apply (vs_t _ V)|]. cbn [stats_of st_t]. rewrite Qred_correct.
+    rewrite <- (Qmult_1_r (qnat D * qpow half D)), <- T, <- (wsum_const (qnat D * qpow half D) cov 0).
+    apply wsum_le_supp; [exact P|]. intros k c E. destruct (supported_nth_error D cov k c S E); [now left|right]. apply d_half_pow_mono; lia.
+  - split; [apply (vs_h _ V)|]. cbn [stats_of st_h]. rewrite Qred_correct.
+    assert (N : forall c, In c (map (fun c => c / qsum (tl cov)) (tl cov)) -> 0 <= c).
+    { intros c Hc. apply in_map_iff in Hc. destruct Hc as (x & <- & Hx).
+      assert (0 <= x) by (apply P; destruct cov; [destruct Hx | now right]).
+      unfold Qdiv. apply Qmult_le_0_compat; [assumption | apply Qinv_le_0_compat; lra]. }
+    assert (B : wsum (fun d => qpow half d) 1 (map (fun c => c / qsum (tl cov)) (tl cov)) <= qpow half D).
+    { assert (E1 : qsum (tl cov) / qsum (tl cov) == 1) by (field; lra).
+      eapply Qle_trans; [apply (wsum_le_supp _ (fun _ => qpow half D)); [exact N|] | rewrite wsum_const, qsum_map_div, E1; lra].
+      intros k c E.
+      rewrite nth_error_map in E. destruct (nth_error (tl cov) k) as [c0|] eqn:E0; [|discriminate]. cbn [option_map] in E. injection E as <-.
+      assert (E' : nth_error cov (S k) = Some c0) by (destruct cov; [destruct k; discriminate | exact E0]).
+      destruct (supported_nth_error D cov (S k) c0 S E') as [Z|G]; [left; rewrite Z; unfold Qdiv; ring | right; apply half_pow_mono; lia]. }
+    lra.
 Qed.
